@@ -262,8 +262,10 @@ pub fn c02_check_run(h: &Hist, r: &RunRecord, prev_is_interp_output: bool) -> Re
                 return Err(("request-not-recorded".into(), format!("request id {} issued but no RequestSentBy({}:{}) in new data", id, me, id)));
             }
         }
-        // every supplied result that was consumed is recorded with its content
-        if code != 30000 {
+        // every supplied result that was consumed is recorded with its content.  Only for code 0:
+        // a run that ends with a catchable error may stop before it reaches the call a result
+        // belongs to (that is C05/C06's subject, not "everything executed in that run")
+        if code == 0 {
             let k = knowledge(&d.data);
             for (id, res) in &r.results {
                 if !r.answered.contains_key(id) {
@@ -304,7 +306,7 @@ impl Property for C02 {
         json!({"skeleton_depth": tier.pick(5, 7), "skeleton_size": tier.pick(30, 60), "schedule_len": 40, "peers": "3..5", "max_steps": 300})
     }
     fn cases(&self, tier: Tier) -> u32 {
-        tier.pick(2400, 160_000)
+        tier.pick(20_000, 400_000)
     }
     fn strategy(&self, tier: Tier) -> BoxedStrategy<HistCase> {
         prop_oneof![
@@ -453,7 +455,7 @@ impl Property for C03 {
         json!({"skeleton_depth": tier.pick(5, 7), "skeleton_size": tier.pick(30, 60), "schedule_len": 40, "peers": "3..5"})
     }
     fn cases(&self, tier: Tier) -> u32 {
-        tier.pick(1600, 100_000)
+        tier.pick(12_000, 300_000)
     }
     fn strategy(&self, tier: Tier) -> BoxedStrategy<HistCase> {
         prop_oneof![
@@ -544,7 +546,7 @@ impl Property for C04 {
         json!({"skeleton_depth": tier.pick(5, 7), "skeleton_size": tier.pick(30, 60), "schedule_len": 60, "peers": "3..5"})
     }
     fn cases(&self, tier: Tier) -> u32 {
-        tier.pick(3000, 200_000)
+        tier.pick(30_000, 600_000)
     }
     fn strategy(&self, tier: Tier) -> BoxedStrategy<HistCase> {
         hist_strategy(1, tier.pick(5, 7), tier.pick(30, 60), 60, false)
@@ -667,7 +669,7 @@ impl Property for C09 {
         json!({"skeleton_depth": tier.pick(5, 7), "skeleton_size": tier.pick(30, 60), "schedule_len": 60, "peers": "3..5"})
     }
     fn cases(&self, tier: Tier) -> u32 {
-        tier.pick(3000, 200_000)
+        tier.pick(30_000, 600_000)
     }
     fn strategy(&self, tier: Tier) -> BoxedStrategy<HistCase> {
         hist_strategy(1, tier.pick(5, 7), tier.pick(30, 60), 60, false)
@@ -706,6 +708,10 @@ impl Property for C09 {
                             "C09:forgot-current-in-nested-stream-fold".to_string()
                         } else if src == "current" && in_fold && h.script.feat.seq_stream_fold > 0 {
                             "C09:forgot-current-in-seq-stream-fold".to_string()
+                        } else if src == "current" && in_fold && crate::script::appends_inside_stream_folds(&h.script.instr) > 0 {
+                            // class K8: a stream filled from inside stream-fold iterations (whose order differs
+                            // between peers) is folded over; the iterations of that fold cannot be matched on merge
+                            "C09:forgot-current-in-fold-over-stream-filled-in-stream-fold".to_string()
                         } else {
                             format!("C09:forgot-{}-{}", src, key.0)
                         };
